@@ -63,6 +63,55 @@ static void emit_par(const char* op, int tap, int n, int k, int m, const vh::Tri
     }
 }
 
+// sequential block products (BSR x BSR, BSC^T x BSR) with independent block shapes; the expected result is the product of the
+// scalar expansions. fmt code 4 in the case line
+static void block_trip(vh::Rng& g, int R, int C, int br, int bc, std::vector<int>& rr, std::vector<int>& cc, std::vector<std::vector<double>>& vv, vh::Trip& t)
+{
+    int nb = (R == 0 || C == 0 || g.coin(1, 8)) ? 0 : g.range(1, R + C + 1);
+    for (int k = 0; k < nb; k++) { int r = g.below(R), c = g.below(C); bool seen = false; for (size_t q = 0; q < rr.size(); q++) if (rr[q] == r && cc[q] == c) seen = true; if (seen) continue;
+        std::vector<double> blk(br * bc); for (auto& v : blk) v = g.coin(1, 4) ? 0 : g.range(-3, 3); rr.push_back(r); cc.push_back(c); vv.push_back(blk); }
+    t.n_rows = R * br; t.n_cols = C * bc;
+    for (size_t k = 0; k < rr.size(); k++) for (int i = 0; i < br; i++) for (int j = 0; j < bc; j++) { t.r.push_back(rr[k] * br + i); t.c.push_back(cc[k] * bc + j); t.v.push_back(vv[k][i * bc + j]); }
+}
+static BSRMatrix* make_bsr(int R, int C, int br, int bc, const std::vector<int>& rr, const std::vector<int>& cc, const std::vector<std::vector<double>>& vv)
+{
+    BSRMatrix* M = new BSRMatrix(R, C, br, bc); M->idx1.assign(R + 1, 0); M->idx2.clear();
+    for (int i = 0; i < R; i++) { for (size_t k = 0; k < rr.size(); k++) if (rr[k] == i) { M->idx2.push_back(cc[k]); M->block_vals.push_back(M->copy_val(const_cast<double*>(vv[k].data()))); } M->idx1[i + 1] = (int)M->idx2.size(); }
+    M->nnz = (int)M->idx2.size(); return M;
+}
+static BSCMatrix* make_bsc(int R, int C, int br, int bc, const std::vector<int>& rr, const std::vector<int>& cc, const std::vector<std::vector<double>>& vv)
+{
+    BSCMatrix* M = new BSCMatrix(R, C, br, bc); M->idx1.assign(C + 1, 0); M->idx2.clear();
+    for (int j = 0; j < C; j++) { for (size_t k = 0; k < rr.size(); k++) if (cc[k] == j) { M->idx2.push_back(rr[k]); M->block_vals.push_back(M->copy_val(const_cast<double*>(vv[k].data()))); } M->idx1[j + 1] = (int)M->idx2.size(); }
+    M->nnz = (int)M->idx2.size(); return M;
+}
+static void seq_block_case(vh::Rng& g, int it)
+{
+    int cap = 1 + std::min(4, it / 20);
+    int R = g.range(0, cap), K = g.range(0, cap), C = g.range(0, cap);
+    // one block size for all three dimensions: the block kernels size their accumulators for square blocks of one size
+    // (rectangular blocks overrun them on the unchanged tree: recorded in DESIGN 12.7c, outside what is generated)
+    int br = g.range(1, 3), bk = br, bc = br;
+    {   // C = A * B : A is R x K blocks of br x bk, B is K x C blocks of bk x bc
+        std::vector<int> ar, ac, brr, bcc; std::vector<std::vector<double>> av, bv; vh::Trip ta, tb;
+        block_trip(g, R, K, br, bk, ar, ac, av, ta); block_trip(g, K, C, bk, bc, brr, bcc, bv, tb);
+        BSRMatrix* A = make_bsr(R, K, br, bk, ar, ac, av); BSRMatrix* B = make_bsr(K, C, bk, bc, brr, bcc, bv);
+        char buf[64]; snprintf(buf, 64, "seq/spgemm/BSR/b%dx%dx%d", br, bk, bc); E.about(buf);
+        CSRMatrix* P = A->mult((CSRMatrix*)B);
+        if (E.want()) { vh::Case c("C06", "spgemm"); c.i(4).i(4).i(ta.n_rows).i(ta.n_cols).i(tb.n_cols).vec(vh::trip_ll(ta)).vec(vh::trip_ll(tb)); vh::dump_mat(c, P); c.write(E.out); }
+        delete P; delete A; delete B;
+    }
+    {   // C = A^T * B : A is K x R blocks of bk x br (stored by block columns), B is K x C blocks of bk x bc
+        std::vector<int> ar, ac, brr, bcc; std::vector<std::vector<double>> av, bv; vh::Trip ta, tb;
+        block_trip(g, K, R, bk, br, ar, ac, av, ta); block_trip(g, K, C, bk, bc, brr, bcc, bv, tb);
+        BSCMatrix* A = make_bsc(K, R, bk, br, ar, ac, av); BSRMatrix* B = make_bsr(K, C, bk, bc, brr, bcc, bv);
+        char buf[64]; snprintf(buf, 64, "seq/spgemmT/BSR/b%dx%dx%d", br, bk, bc); E.about(buf);
+        CSRMatrix* P = B->mult_T((CSCMatrix*)A);
+        if (E.want()) { vh::Case c("C06", "spgemmT"); c.i(4).i(4).i(ta.n_cols).i(ta.n_rows).i(tb.n_cols).vec(vh::trip_ll(ta)).vec(vh::trip_ll(tb)); vh::dump_mat(c, P); c.write(E.out); }
+        delete P; delete A; delete B;
+    }
+}
+
 static void par_case(vh::Rng& g, int it)
 {
     int cap = 2 + std::min(12, it / 5);
@@ -117,6 +166,7 @@ int main(int argc, char** argv)
     bool seq = argc > 2 && !strcmp(argv[2], "seq");
     int n = seq ? (E.thorough ? 1200 : 250) : (E.thorough ? 200 : 50);
     for (int it = 0; it < n; it++) { if (seq) seq_case(g, it); else par_case(g, it); }
+    if (seq) { vh::Rng gb(E.seed * 15485863 + 66); for (int it = 0; it < n; it++) seq_block_case(gb, it); }     // after the scalar cases: their numbers stay
     E.finish();
     MPI_Finalize();
     return 0;
